@@ -260,10 +260,17 @@ pub fn judge(cfg: &Cfg, log: &[Rec]) -> Report {
                     delays.push(None);
                     just_exited = true;
                 }
-                Ev::Listener { name, b, .. } if name == "policy-delay" && just_exited && resolved.is_none() && !atts.is_empty() && atts.last().unwrap().2.is_some() => {
+                Ev::Listener { name, a, b } if name == "policy-delay" && just_exited && resolved.is_none() && !atts.is_empty() && atts.last().unwrap().2.is_some() => {
                     just_exited = false;
                     if let Some(d) = delays.last_mut() {
                         *d = Some(*b);
+                    }
+                    let retry_index = delays.len() as u64 - 1;
+                    if *a != retry_index {
+                        rep.violate(
+                            "C16:policy-asked-for-wrong-attempt",
+                            format!("r{id}: for retry {} (0-indexed, as interval functions are documented) the policy was asked for the delay of attempt {a}; the delay for attempt {retry_index} is never waited", retry_index),
+                        );
                     }
                 }
                 Ev::Resolve { req, out } if *req == id => {
@@ -313,13 +320,9 @@ pub fn judge(cfg: &Cfg, log: &[Rec]) -> Report {
             } else if matches!(cfg.pol, Pol::Jitter(..)) {
                 None
             } else {
-                // index convention is not part of the property: accept the smaller of the two readings
-                let a = native.delay_for_attempt(k + 1).map(|d| d.as_micros() as u64);
-                let b = native.delay_for_attempt(k).map(|d| d.as_micros() as u64);
-                match (a, b) {
-                    (Some(a), Some(b)) => Some(a.min(b)),
-                    _ => None,
-                }
+                // interval functions are documented as 0-indexed ("first retry is 0", and
+                // delay_for_attempt(0) is the initial delay): retry k waits the delay for index k
+                native.delay_for_attempt(k).map(|d| d.as_micros() as u64)
             };
             if matches!(cfg.pol, Pol::None) && !cfg.defaults_layer {
                 rep.violate("C16:retry-without-policy-delay", format!("r{id}: retried although the policy is 'none' (no delay, no retry)"));
